@@ -32,6 +32,12 @@ R20e unit table. A unit listed under a quantity as `<prefix>%` is commensurable 
      `<prefix>` is declared dimensionless (`ureg.define("<prefix> = 1")`, as the table does for wt and
      vol): otherwise are_comparable says True and the comparison raises (assumes pint's grammar:
      juxtaposition multiplies).
+R20f number kinds. The unit registry is created with `non_int_type=decimal.Decimal`: a pint Quantity built from a binary float cannot
+     be converted (`float * Decimal` raises TypeError). Every first argument of `ureg.Quantity(x, ..)` in non-test code is therefore
+     a Decimal by construction - every definition of x is a call of decimal.Decimal / as_decimal, or x is a parameter that is
+     re-bound to decimal.Decimal(..) under an `isinstance(x, float)` test that dominates the call - and not a parameter whose
+     annotation admits float. Otherwise `Simulate: FT01 = 5 L/min` on a tag in L/h, which the analyzer accepts (compatible units),
+     fails at run time in convert_value_to_unit.
 Decides these agreements; pint's arithmetic, UOD-specific parse functions and macro errors are not decided.
 """
 from __future__ import annotations
@@ -319,7 +325,7 @@ def _is_error_item(n) -> bool:
 
 
 # ----------------------------------------------------------------------------------------------------
-def run(ctx) -> None:
+def _run_main(ctx) -> None:
     prog = ctx.prog
     for r, d in [("R20a", "published names are executable names; membership tests are exact"),
                  ("R20b", "analyzer-side validator language <= run-time validator language"),
@@ -1073,3 +1079,79 @@ def run(ctx) -> None:
                          function="openpectus.lang.exec.units (module)", file=units.relpath)
     if n_e < 2:
         raise AnchorError("R20e: compound percentage units not found")
+
+
+def _r20f(ctx) -> None:
+    from ..util import local_all_defs, cfg_of as _cfg
+    from ..cfg import facts_at as _facts
+    prog = ctx.prog
+    ctx.rule("R20f", "values handed to the Decimal unit registry are Decimals")
+    um = prog.module("openpectus.lang.exec.units")
+    decl = [n for n in um.tree.body if isinstance(n, ast.Assign) and isinstance(n.value, ast.Call) and "UnitRegistry" in norm(n.value.func)]
+    if not decl:
+        raise AnchorError("units.py: module-level UnitRegistry(...) not found")
+    regname = decl[0].targets[0].id
+    is_dec = any(k.arg == "non_int_type" and "Decimal" in norm(k.value) for k in decl[0].value.keywords)
+    if not is_dec:
+        ctx.ok("R20f", "the unit registry calculates in float: no Decimal/float mixing to exclude", trivial=True)
+        return
+    n_sites = 0
+    for fn in prog.iter_functions():
+        if "/test" in fn.module.path or ".test." in fn.module.name:
+            continue
+        for c in walk_no_nested(fn.node):
+            if not (isinstance(c, ast.Call) and isinstance(c.func, ast.Attribute) and c.func.attr == "Quantity"
+                    and isinstance(c.func.value, ast.Name) and c.func.value.id == regname and c.args):
+                continue
+            n_sites += 1
+            ctx.analysed(fn)
+            x = c.args[0]
+            inst = f"{fn.short}: `{norm(c)[:50]}` gets a Decimal"
+
+            def decimal_expr(e):
+                return isinstance(e, ast.Call) and (norm(e.func).endswith("Decimal") or (call_attr(e) or getattr(e.func, "id", "")) == "as_decimal")
+            ok, why = False, ""
+            if decimal_expr(x):
+                ok = True
+            elif isinstance(x, ast.Name):
+                defs = list(local_all_defs(fn).get(x.id, []))
+                for st in walk_no_nested(fn.node):      # `a, b = f(x), f(y)`: pair the targets with their values
+                    if isinstance(st, ast.Assign) and isinstance(st.targets[0], ast.Tuple) and isinstance(st.value, ast.Tuple) \
+                            and len(st.targets[0].elts) == len(st.value.elts):
+                        for t_, v_ in zip(st.targets[0].elts, st.value.elts):
+                            if isinstance(t_, ast.Name) and t_.id == x.id:
+                                defs.append(v_)
+                params = {a.arg: a for a in fn.node.args.args}
+                if x.id in params:
+                    ann = norm(params[x.id].annotation) if params[x.id].annotation is not None else ""
+                    g = _cfg(fn)
+                    cn = g.node_containing(c)[0]
+                    rebinds = [n for n in g.nodes if n.kind == "stmt" and isinstance(n.ast, ast.Assign) and isinstance(n.ast.targets[0], ast.Name)
+                               and n.ast.targets[0].id == x.id and decimal_expr(n.ast.value)
+                               and any(t == f"isinstance({x.id}, float)" and pol for t, pol in _facts(g, n))]
+                    tests = [t for t in g.nodes if t.kind == "test" and norm(t.ast) == f"isinstance({x.id}, float)" and g.dominates(t, cn)]
+                    if "float" not in ann and "int" not in ann.replace("non_int", ""):
+                        ok = True
+                    elif rebinds and tests:
+                        ok = True
+                    else:
+                        why = f"parameter `{x.id}: {ann}` admits float and is not converted before the call"
+                elif defs and all(decimal_expr(d) or (isinstance(d, ast.Tuple) and all(decimal_expr(e) for e in d.elts)) for d in defs):
+                    ok = True
+                else:
+                    why = f"`{x.id}` is defined by {[norm(d)[:40] for d in defs][:2]}"
+            else:
+                why = f"`{norm(x)[:40]}` is not a Decimal by construction"
+            if ok:
+                ctx.ok("R20f", inst)
+            else:
+                ctx.fail("R20f", fn, c, inst, f"{why}: the registry is built with non_int_type=Decimal, so a float magnitude raises `unsupported operand "
+                         "type(s) for *: 'float' and 'decimal.Decimal'` on conversion - PInterpreter.visit_SimulateNode passes the float "
+                         "tag_value_numeric of `Simulate: FT01 = 5 L/min` (tag unit L/h), which the analyzer accepts as compatible")
+    if n_sites < 2:
+        raise AnchorError(f"R20f: only {n_sites} {regname}.Quantity(...) constructions found (floor 2)")
+
+
+def run(ctx) -> None:
+    _run_main(ctx)
+    _r20f(ctx)
